@@ -57,6 +57,10 @@ func (ex *Exec) fireTimer(st *State, i int) {
 	t.fired = true
 	ts[i] = t
 	st.setTimers(ts)
+	if st.concreteClock && t.dur != nil && t.dur.IsConst() && t.dur.SVal() > 0 {
+		// the concrete clock moves on by the duration the timer was armed for (time.Sleep, deadlines, tickers)
+		st.side["clockticks"] = st.sideInt("clockticks") + int(t.dur.SVal()/1000000)
+	}
 	if t.fn != nil {
 		ex.spawn(st, t.fn, nil)
 		return
